@@ -176,6 +176,7 @@ func CheckFnParamDef(params []*Param) error {
 		if _, ok := names[p.Name]; ok {
 			return fmt.Errorf("repeated parameters %s", p.Name)
 		}
+		names[p.Name] = struct{}{}
 		if p.Val != nil {
 			if !optional {
 				optional = true
@@ -221,6 +222,12 @@ func CheckPassParam(ctx *Task, expr *ast.CallExpr, params []*Param) *errchain.Pl
 			varbParam = true
 		}
 	}
+	if len(expr.Param) > len(params) && !varbParam {
+		return NewRunError(ctx, fmt.Sprintf(
+			"too many arguments: %d passed, %d parameter(s) declared",
+			len(expr.Param), len(params)), expr.NamePos)
+	}
+
 	for ePIndex, p := range expr.Param {
 		if p.NodeType == ast.TypeAssignmentExpr { // named param
 			if varbParam {
